@@ -774,7 +774,12 @@ fn gen_and_record<T: Sc>(mode: &str, count: usize, rng: &mut StdRng) -> Vec<RunO
                 // a caller driven history before the fit
                 let a1: Vec<T> = base.start.iter().map(|v| *v + T::of64(0.5)).collect();
                 let a2: Vec<T> = base.start.iter().map(|v| *v - T::of64(0.25)).collect();
-                base.caller_ops = vec![COp::Set(a1), COp::Jac, COp::Set(a2), COp::Set(base.start.clone()), COp::Jac];
+                // ... including an update that moves one parameter by a few ulps only (a distinct parameter
+                // vector: everything has to be recomputed for it) and a return to the start
+                let mut a3 = base.start.clone();
+                let last = a3.len() - 1;
+                a3[last] = a3[last] * T::of64(1.0 + if T::NAME == "f64" { 1e-13 } else { 1e-6 });
+                base.caller_ops = vec![COp::Set(a1), COp::Jac, COp::Set(a2), COp::Set(a3), COp::Set(base.start.clone()), COp::Jac];
                 let _ = p;
                 let clean = record_run(&base);
                 let k = clean.calls;
